@@ -153,6 +153,11 @@ pub fn resolve_constant(
         &mut expr::EvalContext::new(),
         &ast_const.expr)?;
 
+    asm::resolver::check_failed_constraint(
+        report,
+        ctx,
+        &value)?;
+
 
     let symbol = defs.symbols.get_mut(item_ref);
     let prev_value = symbol.value.clone();
